@@ -35,7 +35,7 @@ COMPONENTS = {
     "real": ["eolib.packet.PacketSequencer", "eolib.packet.sequence_start.*", "EoWriter/EoReader for every message"],
     "stub_or_harness": ["SimNet (virtual-time FIFO network)", "client/server node scripts", "SimRandom"],
 }
-PROBES = ["sequencer_subclass_with_own_constructor", "start_constructed_ahead_of_hand_over", "start_object_changed_in_place", "user_start_derived_from_library_class", "update_at_counter_9", "update_at_counter_0", "back_to_back_updates", "update_with_packets_in_flight",
+PROBES = ["earlier_start_object_installed_again", "sequencer_subclass_with_own_constructor", "start_constructed_ahead_of_hand_over", "start_object_changed_in_place", "user_start_derived_from_library_class", "update_at_counter_9", "update_at_counter_0", "back_to_back_updates", "update_with_packets_in_flight",
           "three_wraparounds_between_updates", "reconnect", "sequence_sent_as_short", "two_pings_outstanding",
           "request_from_another_thread"]
 FAULT_KINDS = ["latency_jitter", "start_update_mid_burst", "reconnect", "start_unreadable_during_request", "update_during_request"]
@@ -78,6 +78,10 @@ def generate(streams, tier):
             continue
         if rng.random() < 0.04:
             local.append(["install_prepared"])
+            continue
+        if rng.random() < 0.04:
+            # a start object that was in force earlier is handed over again (the very same object)
+            local.append(["reinstall_earlier", rng.randrange(0, 8)])
             continue
         if rng.random() < 0.04:
             # the application changes the value of the start object it installed earlier (no new hand-over)
@@ -380,8 +384,11 @@ def run_local(plan, s, res, tr):
     if kind:
         res.count("probe.sequencer_subclass_with_own_constructor")
     prepared = []       # starts constructed ahead of their hand-over (kept alive)
+    history_of_starts = [installed]     # every start object that has been in force (kept alive)
     n, start = 0, 0
     for i, op in enumerate(plan.get("local", [])):
+        if installed is not history_of_starts[-1]:
+            history_of_starts.append(installed)
         if op[0] == "set":
             installed = ProbeStart(op[1])
             if i % 4 == 1:
@@ -394,6 +401,13 @@ def run_local(plan, s, res, tr):
             prepared.append(ProbeStart(op[1]))       # constructing a start changes nothing that is in force
             res.count("probe.start_constructed_ahead_of_hand_over")
             tr.ev("local", "prepare", op[1])
+        elif op[0] == "reinstall_earlier":
+            if history_of_starts:
+                installed = history_of_starts[op[1] % len(history_of_starts)]
+                seq.set_sequence_start(installed)
+                start = installed._v
+                res.count("probe.earlier_start_object_installed_again")
+                tr.ev("local", "reinstall", start)
         elif op[0] == "install_prepared":
             if prepared:
                 installed = prepared.pop(0)
